@@ -27,6 +27,7 @@ type grammarVec struct {
 	M  string          `json:"m"`
 	N  int             `json:"n"`
 	WV map[string]bool `json:"w"`
+	MD int             `json:"md"` // deepest nesting the document reaches
 	// insertions into a complete document (class c inserted before symbol p+1) with the verdicts of the wrapped results
 	Ins []struct {
 		P int             `json:"p"`
@@ -196,6 +197,9 @@ func straddle(name string, at func(n int) int) synConsumer {
 			p = 0
 		}
 		const fill = 32768
+		if p > fill-16 {
+			p = fill - 16 // a document longer than the buffer: cut where the first fill ends
+		}
 		pad := make([]byte, 0, fill+len(b))
 		pad = append(pad, '"')
 		for len(pad) < fill-p-2 {
@@ -369,6 +373,29 @@ func c05Vector(c *Ctx, raw stdjson.RawMessage) {
 				continue
 			}
 			c05Check(c, w.name, w.accepts, wd, want, tag, "wrap="+w.wrap, "insert="+in.C)
+		}
+	}
+	// 1d. the depth limit (DepthLifting): a complete document wrapped in as many containers as take its deepest
+	// nesting to exactly 10000 is a document, with one more it is not - whatever the innermost value looks like
+	if v.A && len(v.D) > 0 && (len(v.D) <= 3 || r.intn(30) == 0) {
+		inner := liftDoc(v.D, pickRnd, 0, 'x')
+		for _, lim := range []struct {
+			k   int
+			acc bool
+		}{{10000 - v.MD, true}, {10001 - v.MD, false}} {
+			for wi, w := range [][2]string{{"[", "]"}, {`{"a":`, "}"}, {`[{"b":`, "}]"}} {
+				k := lim.k
+				if wi == 2 {
+					if k%2 != 0 {
+						continue
+					}
+					k /= 2
+				}
+				d := append([]byte(strings.Repeat(w[0], k)), inner...)
+				d = append(d, strings.Repeat(w[1], k)...)
+				c.Case()
+				c05All(c, d, lim.acc, true, tag, "depth-limit")
+			}
 		}
 	}
 	// 1c. inside a string: a killing byte (a control character, an invalid escape) at every distance from the
